@@ -19,8 +19,6 @@ func InitGenesis(ctx sdk.Context, k keeper.Keeper, genState types.GenesisState) 
 			epoch.StartTime = ctx.BlockTime()
 		}
 
-		epoch.CurrentEpochStartHeight = ctx.BlockHeight()
-
 		k.SetEpochInfo(ctx, epoch)
 	}
 }
